@@ -103,6 +103,18 @@ def _call(arg):
     return _POOL_FN(arg)
 
 
+def _pin():
+    """Pin each worker to one core: the virtual threads of an execution hand a baton to each other and never run in
+    parallel, so keeping them on one core avoids cross-core wake-ups."""
+    try:
+        cpus = sorted(os.sched_getaffinity(0))
+        ident = mp.current_process()._identity
+        k = (ident[0] - 1) if ident else os.getpid()
+        os.sched_setaffinity(0, {cpus[k % len(cpus)]})
+    except Exception:
+        pass
+
+
 def pmap(fn: Callable, items: Iterable, workers: Optional[int] = None, chunksize: int = 1) -> List[Any]:
     """Fork-pool map (long-lived workers, no fork per execution).  fn may be any callable visible at fork time."""
     global _POOL_FN
@@ -112,7 +124,7 @@ def pmap(fn: Callable, items: Iterable, workers: Optional[int] = None, chunksize
         return [fn(i) for i in items]
     _POOL_FN = fn
     ctx = mp.get_context('fork')
-    with ctx.Pool(w) as pool:
+    with ctx.Pool(w, initializer=_pin) as pool:
         return pool.map(_call, items, chunksize)
 
 
